@@ -217,7 +217,7 @@ class Engine:
             self.inc.add(c)
         return choice
 
-    def concretize(self, bv, limit=16):
+    def concretize(self, bv, limit=64):
         """Fork over the feasible values of a bit-vector term (bounded)."""
         bv = _simp(bv)
         if z3.is_bv_value(bv):
@@ -1033,11 +1033,19 @@ class HostWorld:
         self.modules[name] = mod
         with open(path) as f:
             code = compile(f.read(), path, "exec")
+        # dataclasses (with postponed annotations) consult the *real* sys.modules[cls.__module__] while the
+        # class body is processed: make the module visible there for the duration of the exec only.
+        inserted = name not in sys.modules
+        if inserted:
+            sys.modules[name] = mod
         try:
             exec(code, mod.__dict__)
         except BaseException:
             del self.modules[name]
             raise
+        finally:
+            if inserted and sys.modules.get(name) is mod:
+                del sys.modules[name]
         if "." in name:
             setattr(self.modules[name.rsplit(".", 1)[0]], name.rsplit(".", 1)[1], mod)
         return mod
